@@ -6,7 +6,14 @@
  * (flushed), so that a sanitizer abort or the watchdog identifies the offending case by the
  * number of complete lines printed so far.  Formats are documented in DESIGN.md section 3.2.
  */
+#ifdef VERIF_STRICT
+/* strict ISO C build (gcc -std=c99, no feature-test macros): the library falls back on its own strncasecmp / strnlen / strndup.
+   The driver declares the few POSIX functions it uses itself. */
+#include <stddef.h>
+char *strtok_r(char *, const char *, char **); char *strdup(const char *); size_t strnlen(const char *, size_t);
+#else
 #define _GNU_SOURCE
+#endif
 #include "error.c"
 #include "fifo.c"
 #include "ieee488.c"
@@ -60,7 +67,7 @@ static void *exact(const void *src, size_t n) { void *p = malloc(n); if (n) memc
 static void on_alarm(int sig) { (void) sig; static const char m[] = "\n@@TIMEOUT\n"; if (write(2, m, sizeof m - 1)) {} _exit(124); }
 
 /* ------------------------------------------------------------------ parser scenarios (kind S) */
-static unsigned char wbuf[1 << 17]; static size_t wl;
+static unsigned char wbuf[1 << 19]; static size_t wl;
 static void flushw(void) { if (wl) { oput(" W", 2); ohex(wbuf, wl); wl = 0; } }
 static int muted;
 static size_t cb_write(scpi_t *c, const char *d, size_t l) { (void) c; if (wl + l <= sizeof wbuf) { memcpy(wbuf + wl, d, l); wl += l; } return l; }
